@@ -17,7 +17,10 @@ def execute(case):
     try:
         seq = build(score, via(idx))
         line["in"] = P.raw_abs(seq)
-        seq.quantise_note_lengths(list(values), do_not_extend=noext)
+        if values == get_default_note_values() and idx % 2:
+            seq.quantise_note_lengths(do_not_extend=noext)     # the default values through the default argument
+        else:
+            seq.quantise_note_lengths(list(values), do_not_extend=noext)
         line["out"] = P.raw_abs(seq)
     except Exception as e:
         line["raised"] = f"{type(e).__name__}: {e}"
